@@ -210,7 +210,7 @@ var (
 	}
 )
 
-var c10ShellVocabulary = []string{"echo", "eval", "local", "read", "cat", "exit", "test", "printf", "set", "unset", "true", "false", "done", "fi", "then", "do",
+var c10ShellVocabulary = []string{"_", "__", "echo", "eval", "local", "read", "cat", "exit", "test", "printf", "set", "unset", "true", "false", "done", "fi", "then", "do",
 	"PATH", "IFS", "HOME", "PWD", "RANDOM", "SECONDS", "LINENO", "UID", "BASH", "OSTYPE", "REPLY", "OPTIND", "PS1", "errorlevel", "ERRORLEVEL", "LF", "end", "OS", "TIME", "DATE", "CD", "call", "goto", "rem", "setlocal", "endlocal", "nul", "con"}
 
 // normName strips numbering so that renumbering helpers does not change finding keys.
